@@ -91,7 +91,7 @@ def c08_1(R):
             R.fail([fn, "streams.insert-key-vs-StreamArgs", detail], "the key under which the stream is inserted differs from (remote, conn_id_recv) that its drop guard will remove", where=ins[0].where(), instance="table-key=guard-key")
 
 
-@rule("C08.2", ["C08", "C12"], ["E1", "E4", "E3"], "Shutdown(key) removes that key; a guard is disarmed only together with a manual removal",
+@rule("C08.2", ["C08", "C12", "C13"], ["E1", "E4", "E3"], "Shutdown(key) removes that key; a guard is disarmed only together with a manual removal",
       "on_control's Shutdown(key) arm calls streams.remove(&key) with the received key; DropGuardSendBeforeDeath::disarm on VirtualSocket.drop_guard is called only in UtpStreamStarter::disarm, "
       "which is called only in match_syn_with_accept on a path that then calls streams.remove(&recv_key) with the inserted key.")
 def c08_2(R):
@@ -119,7 +119,12 @@ def c08_2(R):
                 R.ok("vsock-guard-disarm-sites", owner_fn(b))
             else:
                 R.fail([owner_fn(b), "disarm(VirtualSocket.drop_guard)"], "a connection's drop guard is disarmed at an unaudited site: its table slot will never be released", where=t.where(), instance="vsock-guard-disarm-sites")
-    R.floor("disarm of VirtualSocket.drop_guard", n, 1)
+    sd = R.body("stream_dispatch::UtpStreamStarter::disarm")
+    if not any(call_matches(t, ("utils::DropGuardSendBeforeDeath::disarm",)) and trace(b2, t.args[0]).last_field == "VirtualSocket.drop_guard" for b2 in [sd] + F.closures_of(sd.name) for t in b2.calls()):
+        R.fail([sd.name, "does-not-disarm(VirtualSocket.drop_guard)"], "UtpStreamStarter::disarm no longer disarms the connection's drop guard: dropping the never-started starter posts Shutdown(recv_key), "
+               "which later removes whatever stream is registered under that key (the next accepted connection is unwired)", where=sd.where(), instance="vsock-guard-disarm-sites")
+    else:
+        R.floor("disarm of VirtualSocket.drop_guard", n, 1)
     for b, t in census_calls(R, F, ("stream_dispatch::UtpStreamStarter::disarm",)):
         fn = owner_fn(b)
         if fn != DISP + "::match_syn_with_accept":
